@@ -201,9 +201,13 @@ func (met *cff2CharstringHandler) setVSIndex(index int) error {
 	vars := met.vars.ItemVariationDatas[index]
 	k := int32(len(vars.RegionIndexes)) // number of regions
 	met.scalars = append(met.scalars[:0], make([]float32, k)...)
+	regions := met.vars.VariationRegionList.VariationRegions
 	for i, regionIndex := range vars.RegionIndexes {
-		region := met.vars.VariationRegionList.VariationRegions[regionIndex]
-		met.scalars[i] = region.Evaluate(met.coords)
+		if int(regionIndex) >= len(regions) {
+			// the region indexes are not validated when parsing: an invalid region contributes nothing
+			continue
+		}
+		met.scalars[i] = regions[regionIndex].Evaluate(met.coords)
 	}
 	return nil
 }
